@@ -58,9 +58,11 @@ fn main() {
     "C13" => dispatch!(props::c13::C13),
     "C14" => dispatch!(props::c14::C14),
     "C15" => dispatch!(props::c15::C15),
+    "C16" => dispatch!(props::c16::C16),
     "C18" => dispatch!(props::c18::C18),
     "C19" => dispatch!(props::c19::C19),
     "C20" => dispatch!(props::c20::C20),
+    "C21" => dispatch!(props::c21::C21),
     "C22" => dispatch!(props::c22::C22),
     "C30" => dispatch!(props::c30::C30),
     other => {
